@@ -136,6 +136,14 @@ class FakeSocket:
             # a compressed data frame that never reaches the peer: its zlib bytes are not canonical (the model has none)
             z = len(data) >= 2 and (data[0] & 0x40) and (data[0] & 0x0f) in (1, 2) and (w.peer_cfg is not None) and not (w.peer_cfg == 'code' and w.deflate_cfg is None)
             w.log('WF:' if z else 'WF:' + data.hex())
+            if z:
+                # the client's compressor has consumed the message although the bytes never left: keep the canonicaliser's
+                # inflater in step (a real peer is lost from here on - the transport is broken - but the traces of later
+                # compressed writes should still be comparable with the model)
+                try:
+                    w.canon_write(data)
+                except Exception:  # noqa
+                    pass
             raise socket.error(104, 'simulated write failure' + HOSTILE)
         w.raw.append(data)
         w.log(w.canon_write(data))
